@@ -1739,6 +1739,57 @@ def gen(repo):
         failed['EbrProtoW.v'] = str(ex)
     except (NameError, KeyError, UnboundLocalError) as ex:
         failed['EbrProtoW.v'] = 'depends on a part of the source that could not be translated (%s)' % ex
+    # ---------------- GuardCallsW.v : the order in which the guard / handle functions call the modelled primitives
+    try:
+        guard_src = rd('src/ebr_impl/guard.rs')
+        lf = get_fns(get_impl(internal, r"impl\s+Local"))
+        gf = get_fns(get_impl(guard_src, r"impl\s+Guard"))
+
+        def calls_of(body):
+            """modelled calls in execution order: a `defer! { .. }` block runs at the end of the enclosing body; a guard bound
+            by `let g = &self.pin();` inside a block is dropped (unpin) at the end of that block"""
+            t = _strip_macros(body)
+            t = re.sub(r"debug_assert(?:_eq)?!\s*\([^;]*\);", "", t)
+            deferred = ''
+            md = re.search(r"\bdefer!\s*\{", t)
+            if md:
+                j = find_matching(t, md.end() - 1)
+                deferred = t[md.end():j]
+                t = t[:md.start()] + t[j + 1:]
+            # a block that binds a guard: insert the drop at its end
+            mg = re.search(r"\{\s*let\s+\w+\s*=\s*&\s*self\s*\.\s*pin\s*\(\s*\)\s*;", t)
+            if mg:
+                j = find_matching(t, mg.start())
+                t = t[:j] + " @DROPGUARD; " + t[j:]
+            t = t + " " + deferred
+            out = []
+            for m_ in re.finditer(r"(acquire_handle|release_handle|unpin|repin_without_collect|pin|push_to_global|schedule_collection)\s*\(|handle_count\s*\.\s*set\s*\(\s*(\d+)\s*\)|entry\s*\.\s*delete\s*\(|@DROPGUARD|\bf\s*\(\s*\)", t):
+                tok = m_.group(0)
+                if tok.startswith('@DROPGUARD'):
+                    out.append('KUnpin')
+                elif m_.group(2) is not None:
+                    out.append('(KSetHc %s)' % m_.group(2))
+                elif tok.startswith('entry'):
+                    out.append('KDelete')
+                elif re.match(r"f\s*\(", tok):
+                    out.append('KUser')
+                else:
+                    out.append({'acquire_handle': 'KAcquire', 'release_handle': 'KRelease', 'unpin': 'KUnpin', 'pin': 'KPin',
+                                'repin_without_collect': 'KRepin', 'push_to_global': 'KPushToGlobal',
+                                'schedule_collection': 'KSchedule'}[m_.group(1)])
+            return out
+
+        g = HEADER % "src/ebr_impl/internal.rs, src/ebr_impl/guard.rs (call order of the guard / handle functions)"
+        g += ("Inductive gcall := KAcquire | KRelease | KUnpin | KPin | KRepin | KPushToGlobal | KSchedule | KSetHc (n : Z) | KDelete | KUser.\n\n")
+        for nm, table, key in (('repin', lf, 'repin'), ('flush', lf, 'flush'), ('finalize', lf, 'finalize'), ('reactivate_after', gf, 'reactivate_after')):
+            if key not in table:
+                raise TranslateError("fn %s not found" % key)
+            g += "Definition G_%s : list gcall := [%s].\n" % (nm, "; ".join(calls_of(table[key][2])))
+        files['GuardCallsW.v'] = g
+    except TranslateError as ex:
+        failed['GuardCallsW.v'] = str(ex)
+    except (NameError, KeyError, UnboundLocalError) as ex:
+        failed['GuardCallsW.v'] = 'depends on a part of the source that could not be translated (%s)' % ex
     # ---------------- OrderW.v : the memory orderings the source uses, per file and kind of atomic access.
     try:
         # Every model is sequentially consistent; what entitles it to be is the set of orderings and fences of the
